@@ -58,6 +58,11 @@ func (w *Workspace) Initialize() error {
 		return err
 	}
 	w.rootJournalPath = rootPath
+	// the search may have filled the graphs from every journal file of the
+	// directory, read from disk without any limit: they are built below, from
+	// what the resolution admits
+	w.includeGraph = make(map[string][]string)
+	w.reverseGraph = make(map[string][]string)
 
 	if rootPath != "" {
 		resolved, errs := w.loader.Load(rootPath)
